@@ -19,6 +19,16 @@ written literally after the code.
   `comp` / `cust` is that row's dictionary — this is what the model states
   and what the correspondence harness (tools/props/C14.py) checks on the real
   code with inputs that differ in every row.
+* Custom variables are FROZEN INPUTS of the step (time.py:381-382:
+  `rel.data[func_name] = function(rel)`, `rel.var_importance[func_name] = 0`):
+  the dictionary every later read of the step sees is the row's inputs followed
+  by the custom values (`runCustoms`), and `comp` is applied to exactly that
+  dictionary (`relGet`).  Accordingly the model has NO cache parameter
+  (`clear_cache_every_nbr_calc`, `memory_threshold_inGB`): a custom value — also
+  one stored under the name of a built-in key, such as a custom `press` — can
+  never be evicted and replaced by the built-in default.  The harness checks
+  this on the real code with custom functions named like built-in keys, long
+  lists of built-ins that read them and `clear_cache_every_nbr_calc` 1-5.
 * Exceptions the code can raise from its own control flow are modelled:
   ValueError (no temporal key; `zip(strict=True)` on ragged columns),
   IndexError (`data[key][0]` / `input_data_list[0]` on an empty table),
